@@ -9,10 +9,11 @@ import PartituraModel.Proofs.C06Adjust
 import PartituraModel.Proofs.C06Pair
 import PartituraModel.Proofs.C06Export
 import PartituraModel.Proofs.C06Ids
+import PartituraModel.Proofs.C06Notes
 import PartituraModel.Props.C12
 
 namespace C06
-open Model Model.PerfMidi C06Sort C06Adjust C06Pair C06Lists C06Export C06Ids
+open Model Model.PerfMidi C06Sort C06Adjust C06Pair C06Lists C06Export C06Ids C06Notes
 
 -- ================================================================== timing
 
@@ -154,6 +155,68 @@ theorem ids_by_key (l : List RNote) (sec : Int → Rat) (hsec : ∀ x y, 0 ≤ x
 example : sortNotes [⟨60, 10, 20, 1, 0⟩, ⟨62, 0, 5, 2, 0⟩, ⟨59, 10, 12, 3, 1⟩, ⟨59, 10, 12, 4, 0⟩]
     = [⟨62, 0, 5, 2, 0⟩, ⟨59, 10, 12, 4, 0⟩, ⟨59, 10, 12, 3, 1⟩, ⟨60, 10, 20, 1, 0⟩] := by decide
 
+/-- Notes survive the round trip, track by track (no merging): if on every track number the notes of one
+    (channel, pitch), in the order they are written (part by part, by (note_on, note_off)), each end before
+    the next begins, then from file track j — read back from the delta-encoded saved file — the loader pairs,
+    for every (channel, pitch), exactly the notes the performance has on its j-th smallest used track
+    number: same pitch, velocity and channel, onset and release at the ticks `q note_on`, `q note_off` -/
+theorem notes_kept_tracks (q : Rat → Int) (hq : ∀ a b, a ≤ b → q a ≤ q b) (mpq : Nat) (parts : List PPart)
+    (hwf : ∀ p ∈ parts, ∀ n ∈ p.notes, n.on ≤ n.off ∧ 0 < n.vel)
+    (hno : ∀ tr κ, (keyNotes parts tr κ).Pairwise (fun a b => a.off ≤ b.on)) :
+    List.Forall₂ (fun tr t => ∀ κ, notesOf κ (pairNotes t) = (keyNotes parts tr κ).map (toR q))
+      (usedTracks q parts) (loaderTracks false ((savedAbs q mpq false parts).map toDelta)) := by
+  have hmem : ∀ tr κ, ∀ n ∈ keyNotes parts tr κ, n.on ≤ n.off ∧ 0 < n.vel := by
+    intro tr κ n hn
+    unfold keyNotes at hn
+    obtain ⟨p, hp, hn⟩ := List.mem_flatMap.mp hn
+    exact hwf p hp n ((mem_sortBy _ _ _).mp (List.mem_filter.mp hn).1)
+  have key : ∀ tr (t : Track), (∀ κ, proj κ t = proj κ (trackAbs (insertAll q parts) tr)) →
+      ∀ κ, notesOf κ (pairNotes t) = (keyNotes parts tr κ).map (toR q) := by
+    intro tr t ht κ
+    refine pairing_sound t (fun κ => (keyNotes parts tr κ).map (toR q)) ?_ κ
+    intro κ'
+    rw [ht κ', proj_trackAbs q hq parts tr κ' (fun n hn => (hmem tr κ' n hn).1) (hno tr κ')]
+    exact noteMsgs_alt q _ (fun n hn => (hmem tr κ' n hn).2)
+  rw [loaderTracks_saved, List.forall₂_map_right_iff]
+  refine forall₂_exportAbs _ q mpq parts ?_ ?_
+  · intro tr
+    refine key tr _ ?_
+    intro κ
+    rw [proj_eq_sel, proj_eq_sel, sel_fixEot _ (gK_eot κ), sel_cons_none _ _ _ (gK_tempo κ mpq)]
+  · intro tr
+    refine key tr _ ?_
+    intro κ
+    rw [proj_eq_sel, proj_eq_sel, sel_fixEot _ (gK_eot κ)]
+
+/-- The proviso of the property for one performed part: no two notes of the same track, channel and pitch
+    overlap (as half-open intervals; the list may be in any order) — then the written order is the order
+    in time and `notes_kept_tracks` applies; with the exporter's own rounding -/
+theorem notes_kept_part (mpq ppq : Nat) (p : PPart)
+    (hwf : ∀ n ∈ p.notes, n.on ≤ n.off ∧ 0 < n.vel)
+    (hap : p.notes.Pairwise (fun a b => a.track = b.track → noteHash a.ch a.pitch = noteHash b.ch b.pitch → Apart a b)) :
+    List.Forall₂ (fun tr t => ∀ κ, notesOf κ (pairNotes t) = (keyNotes [p] tr κ).map (toR (quant mpq ppq)))
+      (usedTracks (quant mpq ppq) [p])
+      (loaderTracks false ((savedAbs (quant mpq ppq) mpq false [p]).map toDelta)) := by
+  refine notes_kept_tracks (quant mpq ppq) (quant_mono mpq ppq) mpq [p] ?_ ?_
+  · intro p' hp'
+    rw [List.mem_singleton] at hp'
+    subst hp'
+    exact hwf
+  · intro tr κ
+    exact keyNotes_single p tr κ (fun n hn => (hwf n hn).1) hap
+
+/-- non-vacuity, and the witness of fixes/C06-4: two touching notes of one pitch listed in reverse order,
+    a third on another channel overlapping both -/
+example : let p : PPart := { metaOther := [], keySigs := [], timeSigs := [], controls := [],
+                             notes := [⟨60, 70, 0, 0, 1, 2⟩, ⟨60, 64, 0, 0, 0, 1⟩, ⟨60, 5, 1, 0, 1/2, 3/2⟩],
+                             programs := [] }
+    p.notes.Pairwise (fun a b => a.track = b.track → noteHash a.ch a.pitch = noteHash b.ch b.pitch → Apart a b) ∧
+    ((loaderTracks false ((savedAbs (quant 500000 480) 500000 false [p]).map toDelta)).map
+        (fun t => sortNotes (pairNotes t)))
+      = [[⟨60, 0, 960, 64, 0⟩, ⟨60, 480, 1440, 5, 1⟩, ⟨60, 960, 1920, 70, 0⟩]] := by
+  refine ⟨?_, by decide +kernel⟩
+  simp [Apart, noteHash]
+
 -- ================================================================== controls, programs, signatures, meta
 
 /-- Without merging: file track j, as the loader reads it back from the delta-encoded saved file, holds
@@ -178,16 +241,47 @@ theorem controls_kept (q : Rat → Int) (mpq : Nat) (ms ml : Bool) (parts : List
     ((loaderTracks ml ((savedAbs q mpq ms parts).map toDelta)).flatMap controlsOf).Perm
       ((usedTracks q parts).flatMap (perfControls q parts)) := by
   have hc : controlsOf = sel gCtl := funext controlsOf_eq
-  rw [hc]
-  refine (sel_file gCtl rfl q mpq ms ml parts).trans ?_
-  refine (flatMap_perm_of_forall₂ _ _ _ _ ?_).symm
-  refine (sel_exportAbs gCtl (by intros; rfl) (by intros; rfl) q mpq parts).imp ?_
-  intro tr t h
-  have : (fun p => evI gCtl tr (partEvents q p))
-      = fun p => (p.controls.filter (fun c => decide (c.track = tr))).map fun c => (q c.time, c.num, c.val, c.ch) :=
-    funext (evI_ctl_part q tr)
-  rw [this] at h
-  exact h.symm
+  have : (fun tr => parts.flatMap fun p => evI gCtl tr (partEvents q p)) = perfControls q parts := by
+    funext tr; unfold perfControls; congr 1; funext p; exact evI_ctl_part q tr p
+  rw [hc, ← this]
+  exact sel_file_perf gCtl rfl (by intros; rfl) (by intros; rfl) q mpq ms ml parts
+
+/-- the same for time signatures, key signatures and other meta events (up to `end_of_track`) -/
+theorem signatures_meta_kept (q : Rat → Int) (mpq : Nat) (ms ml : Bool) (parts : List PPart) :
+    ((loaderTracks ml ((savedAbs q mpq ms parts).map toDelta)).flatMap timeSigsOf).Perm
+      ((usedTracks q parts).flatMap (perfTimeSigs q parts)) ∧
+    ((loaderTracks ml ((savedAbs q mpq ms parts).map toDelta)).flatMap keySigsOf).Perm
+      ((usedTracks q parts).flatMap (perfKeySigs q parts)) ∧
+    ((loaderTracks ml ((savedAbs q mpq ms parts).map toDelta)).flatMap (fun t => realMetas (metasOf t))).Perm
+      ((usedTracks q parts).flatMap (perfMetas q parts)) := by
+  refine ⟨?_, ?_, ?_⟩
+  · have hc : timeSigsOf = sel gTime := funext timeSigsOf_eq
+    have : (fun tr => parts.flatMap fun p => evI gTime tr (partEvents q p)) = perfTimeSigs q parts := by
+      funext tr; unfold perfTimeSigs; congr 1; funext p; exact evI_time_part q tr p
+    rw [hc, ← this]
+    exact sel_file_perf gTime rfl (by intros; rfl) (by intros; rfl) q mpq ms ml parts
+  · have hc : keySigsOf = sel gKey := funext keySigsOf_eq
+    have : (fun tr => parts.flatMap fun p => evI gKey tr (partEvents q p)) = perfKeySigs q parts := by
+      funext tr; unfold perfKeySigs; congr 1; funext p; exact evI_key_part q tr p
+    rw [hc, ← this]
+    exact sel_file_perf gKey rfl (by intros; rfl) (by intros; rfl) q mpq ms ml parts
+  · have hc : (fun t => realMetas (metasOf t)) = sel gMeta := funext realMetas_metasOf
+    have : (fun tr => parts.flatMap fun p => evI gMeta tr (partEvents q p)) = perfMetas q parts := by
+      funext tr; unfold perfMetas; congr 1; funext p; exact evI_meta_part q tr p
+    rw [hc, ← this]
+    exact sel_file_perf gMeta rfl (by intros; rfl) (by intros; rfl) q mpq ms ml parts
+
+/-- non-vacuity: a part on track numbers 0 and 2 without programs (default program inserted), merged on
+    load: the used tracks, the single tempo, the controls and programs read back -/
+example : let p : PPart := { metaOther := [⟨3, none, 0⟩, ⟨1/4, some 2, 2⟩], keySigs := [⟨0, -3, true, 0⟩],
+                             timeSigs := [⟨0, 6, 8, 2⟩], controls := [⟨1/3, 64, 127, 1, 2⟩, ⟨0, 7, 100, 0, 0⟩],
+                             notes := [⟨60, 64, 0, 0, 1/2, 1⟩], programs := [] }
+    let tracks := loaderTracks true ((savedAbs (quant 500000 480) 500000 false [p]).map toDelta)
+    usedTracks (quant 500000 480) [p] = [0, 2] ∧
+    tempoList 500000 tracks = [(0, 500000), (0, 500000)] ∧
+    tracks.flatMap controlsOf = [(0, 7, 100, 0), (320, 64, 127, 1)] ∧
+    tracks.flatMap programsOf = [(0, 0, 0), (0, 0, 1)] ∧
+    tracks.flatMap (fun t => realMetas (metasOf t)) = [(240, 2)] := by decide +kernel
 
 /-- Programs, per track: what is read is what the performance has, plus `program_change 0` only
     (the default program written for the channels of a part without programs) -/
